@@ -10,6 +10,12 @@ Part A (decided with the spec, reported separately in the evidence as coverage["
 Part B (input exploration with a thin spec): spec/WireLaws - framing of ReadMessage/WriteMessage over
   the whole 16-bit type / failure-code space, and the codec laws as trace invariants over a mutation
   plan (type x operator x position class) that TLC enumerates and the lnwire executor must cover exactly.
+  The plan has a value-boundary part (operators val-int / val-bytes / val-len): every scalar, fixed-size and
+  length-prefixed field of every message type and of every failure message (found by walking the generated Go
+  value) is set to the boundary classes of its encoding (BigSize width boundaries, byte patterns with an
+  interior zero / 0xff / invalid UTF-8, lengths 0,1,0xfc..0x100); WireLaws.ValueLaw (with the value domains
+  stated in the spec) decides the round trip - deviation class `value-roundtrip`, key
+  wire:value-roundtrip:<kind>:<type>:<Struct.Field>.
 """
 import concurrent.futures
 import copy
@@ -276,7 +282,20 @@ def part_wire(ck):
     ck.cov["evaluations"] += len(execd) + 2 * 65536 + sum(1 for x in recs if x["a"] in ("Write", "ReadShort"))
     ck.cov["distinct_nontrivial"] += len({x["h"] for x in execd if x["op"] != "valid"})
     ck.cov["traces_validated_against_impl"] += 1
+    vals = [x for x in execd if x["op"].startswith("val-")]
+    vchg = [x for x in vals if x["e0"] == 1 and x["chg"] == 1]
+    value_part = dict(
+        plan_cells=len([c for c in cells if c["op"].startswith("val-")]),
+        cases_executed=len(vals),
+        cases_reaching_the_encoding=len(vchg),
+        came_back_equal=len([x for x in vchg if x["d1"] == 1 and x["veq"] == 1 and x["same"] == 1]),
+        encoder_refused=len([x for x in vals if x["e0"] == 0]),
+        decoder_refused=len([x for x in vals if x["e0"] == 1 and x["d1"] == 0]),
+        distinct_fields={k: len({(x["t"], x["path"]) for x in vals if x["kind"] == k}) for k in ("msg", "fail", "pkt")},
+        distinct_field_class_pairs=len({(x["kind"], x["t"], x["path"], x["pos"]) for x in vals}),
+        struct_fields=len({x["fld"] for x in vals}))
     wl = dict(plan_cells=len(cells), repetitions=reps, cases_executed=len(execd), not_applicable=len(laws) - len(execd),
+              value_boundary=value_part,
               accepted=len(acc), rejected=len(execd) - len(acc),
               accepted_mutants=len([x for x in acc if x["op"] not in ("valid", "ext-odd")]),
               max_alloc_bytes=max([x["alloc"] for x in execd] or [0]),
@@ -285,7 +304,9 @@ def part_wire(ck):
               message_types=len({x["t"] for x in laws if x["kind"] == "msg"}),
               failure_codes=len({x["t"] for x in laws if x["kind"] == "fail"}))
     ck.cov["wirelaws"] = wl
-    for x in (next((x for x in acc if x["op"] == "flip"), None), next((x for x in execd if x["op"] == "len+1"), None)):
+    for x in (next((x for x in acc if x["op"] == "flip"), None), next((x for x in execd if x["op"] == "len+1"), None),
+              next((x for x in vchg if x["op"] == "val-int" and x["pos"] == "i10000"), None),
+              next((x for x in vchg if x["op"] == "val-bytes" and x["pos"] == "bz"), None)):
         if x:
             ck.cov["samples"].append({"law": x})
 
@@ -294,6 +315,9 @@ def part_wire(ck):
         what, kind, t, op, line = d[0], d[1], d[2], d[3], int(d[4])
         key = "wire:%s:%s:%s" % (what, kind, t) if kind in ("msg", "fail", "pkt") and what not in (
             "dispatch", "range-gap", "dispatch-type") else "wire:%s:%s:%s:%s" % (what, kind, t, op)
+        if what == "value-roundtrip" and line - 1 < len(recs):
+            # the value-boundary part names the field: wire:value-roundtrip:fail:16406:InvalidOnionPayload.Type
+            key = "wire:value-roundtrip:%s:%s:%s" % (kind, t, recs[line - 1].get("fld") or op)
         classes.setdefault(key, []).append((what, kind, t, op, line))
     wl["deviation_classes"] = {k: len(v) for k, v in classes.items()}
     for key, items in sorted(classes.items()):
@@ -309,18 +333,32 @@ def part_wire(ck):
                      files={"trace.ndjson": one})
 
     # negative controls (always): an accepted mutant whose re-encoding is claimed not to be a fixpoint must be
-    # reported at exactly that line, and with one plan line removed the plan must be reported as not covered
+    # reported at exactly that line; likewise a value-boundary case (a field that reached the encoding and came
+    # back equal) claimed to have come back different, and one claimed to have set another field than the one the
+    # repetition selects; and with one plan line removed the plan must be reported as not covered
     flagged = {int(d[4]) for d in devs}
     bad = copy.deepcopy(recs)
     i = next(i for i, x in enumerate(bad) if x["a"] == "Law" and x["na"] == 0 and x["d1"] == 1 and x["op"] == "flip"
              and (i + 1) not in flagged)
     bad[i]["fix"] = 0
+    okval = [j for j, x in enumerate(bad) if x["a"] == "Law" and x["na"] == 0 and x["op"] in ("val-int", "val-bytes")
+             and x["e0"] == 1 and x["chg"] == 1 and x["d1"] == 1 and x["veq"] == 1 and x["nf"] >= 2
+             and (j + 1) not in flagged]
+    if len(okval) < 2:
+        raise Inconclusive("no value-boundary case for the negative control")
+    jv, jf = okval[0], okval[len(okval) // 2]
+    bad[jv]["veq"] = 0
+    bad[jf]["fi"] = bad[jf]["fi"] % bad[jf]["nf"] + 1
     cp = os.path.join(ck.out, "wire_control.ndjson")
     core.write_ndjson(cp, bad)
     ok2, devs2, _ = run_postcond(ck, WL, "WireLawsTrace", "WireLawsTrace.cfg", cp, "control_wirelaws",
                                  constants={"Reps": reps})
     if ok2 or not any(d[0] == "fixpoint" and int(d[4]) == i + 1 for d in devs2):
         raise Inconclusive("negative control accepted: WireLaws trace validation is not binding")
+    if not any(d[0] == "value-roundtrip" and int(d[4]) == jv + 1 for d in devs2):
+        raise Inconclusive("negative control accepted: the value-boundary law (ValueLaw) is not binding")
+    if not any(d[0] == "field-plan" and int(d[4]) == jf + 1 for d in devs2):
+        raise Inconclusive("negative control accepted: the field selection of the value-boundary plan is not binding")
     cp2 = os.path.join(ck.out, "wire_control2.ndjson")
     core.write_ndjson(cp2, recs[:i] + recs[i + 1:])
     ok3, devs3, _ = run_postcond(ck, WL, "WireLawsTrace", "WireLawsTrace.cfg", cp2, "control_wirelaws2",
@@ -330,6 +368,10 @@ def part_wire(ck):
     ck.cov.setdefault("negative_controls", []).append(
         dict(part="wirelaws", mutation="fix=0 on an accepted mutant (line %d); one plan line removed" % (i + 1),
              rejected_by="fixpoint; plan-not-covered"))
+    ck.cov["negative_controls"].append(
+        dict(part="wirelaws value-boundary", mutation="veq=0 on %s %s %s=%s (line %d); fi changed on line %d" % (
+            bad[jv]["kind"], bad[jv]["t"], bad[jv]["fld"], bad[jv]["pos"], jv + 1, jf + 1),
+             rejected_by="value-roundtrip; field-plan"))
     return wl
 
 
@@ -353,12 +395,17 @@ def run(ck):
         "fixpoint, value round trip, unknown odd extension record preserved) as predicates over single "
         "observations; the inputs are a TLC-enumerated mutation plan (type x operator x position class) applied "
         "to generator-built valid encodings - structure-aware input exploration with a trivial specification, "
-        "see coverage.wirelaws. Nothing is claimed about field-by-field correctness of a layout.")
+        "see coverage.wirelaws. The value-boundary part of the plan (coverage.wirelaws.value_boundary) sets every "
+        "scalar / fixed-size / length-prefixed field of every generated message and failure value to the boundary "
+        "classes of its encoding and judges `decodes back to an equal value, byte-identically` with the value "
+        "domains stated in the spec (InDomain). Nothing is claimed about field-by-field correctness of a layout "
+        "beyond these laws.")
     ck.cov["rule"] = (
         "tlv: evaluations = entry-point calls on enumerated inputs (all byte strings <= L over the alphabet + every "
         "leaf of the TLC token tree); distinct_nontrivial = distinct non-empty inputs accepted by at least one entry "
         "point. wirelaws: evaluations = executed plan cases + 2*65536 dispatch probes + write-bound probes; "
-        "distinct_nontrivial = distinct mutated inputs (hash of the bytes), valid encodings not counted")
+        "distinct_nontrivial = distinct mutated inputs (hash of the bytes; a value-boundary case counts by the hash "
+        "of the encoding of the value with the field set), valid encodings not counted")
     ck.cov["trusted_base"] = [
         "TLC 1.8.0 + CommunityModules (Json, CSV)",
         "executor projections: error identity -> class, known-record values, TypeMap keys, bytes.Equal, "
@@ -374,4 +421,10 @@ def run(ck):
         "allocation guard: an entry point observed allocating > 1 MiB + 4x input twice is not called again on inputs "
         "that claim >= 2^24 bytes (recorded, counted in coverage.tlv.calls_not_executed_by_allocation_guard)",
         "message part: position classes head/mid/tail of the decoder's own read boundaries; one random byte/bit "
-        "pattern per cell and repetition (seeded); zlib-encoded short channel ids only as the generators build them"]
+        "pattern per cell and repetition (seeded); zlib-encoded short channel ids only as the generators build them",
+        "value-boundary part: fields are the leaves of the Go value reachable through lnwire/tlv/fn/wire/color structs "
+        "(maps - feature vectors, custom records -, net.Addr lists, curve points and scalars are opaque; of a list the "
+        "first two elements); one field per case, the other fields keep the generated values; a field whose boundary "
+        "value does not change the encoding is not judged for value equality (not on the wire in that value); the "
+        "value domains (3-byte short_channel_id parts, 2-byte output index, encoding type, DNS port, message_flags, "
+        "musig2 nonces, alias text, script / alias lengths) are the named exceptions of WireLaws.InDomain"]
